@@ -33,7 +33,10 @@ TRUSTED = [
     "intermediate sequences as one run (rdflib is deterministic in-process)",
 ]
 ASSUMPTIONS = [
-    "terms: blank nodes, IRIs, plain string literals, xsd:integer, xsd:decimal (no language tags, no doubles, "
+    "the solution sequence entering the modifiers is an INPUT (what rdflib returns for SELECT * over one of six base "
+    "patterns); translateAggregates / algebra.translate are not modelled: the model's pipeline is the intended result of "
+    "that rewriting, tied only through the query text of every case",
+    "terms: blank nodes, IRIs, plain string literals, xsd:integer, xsd:decimal (no language tags, no booleans, no dates, no doubles, "
     "no other datatypes); sort keys are variables; aggregate arguments are variables or expressions over variables, "
     "constants, unary/binary +/-, comparisons, && || !, IF, binary COALESCE, BOUND (the evaluator eval_t/eval_b is shared "
     "by model and checker: its agreement with rdflib is tied, its agreement with SPARQL 17 is not claimed here); an unbound "
@@ -730,6 +733,12 @@ class C08(Suite):
              "group_by_alias": int(bool(case.get("galias"))),
              "agg_arg_expression": int(any(a.get("expr") for _, a in case["aggs"])),
              "agg_arg_tex": int(any(a.get("tex") for _, a in case["aggs"])),
+             # ORDER BY with a key that is not among the projected variables: the checker judges only the multiset
+             # there, the ORDER is judged by model = implementation alone (keys_visible = false in Model.v)
+             "order_judged_by_model_equality_only": int(bool(case["order"]) and case["proj"] is not None
+                                                        and any(v not in case["proj"] for _, v in case["order"])),
+             "order_judged_by_checker": int(bool(case["order"]) and (case["proj"] is None
+                                            or all(v in case["proj"] for _, v in case["order"]))),
              "agg_only_in_order_by": int(any(v in [a[0] for a in case["aggs"]] and v not in (case["proj"] or [])
                                              for _, v in case["order"])),
              "distinct_sorted_on_all_columns": int(bool(case["distinct"] and case["proj"] and case["order"]
